@@ -295,6 +295,33 @@ def check_evaluate_on(pol, pi, mdp, spec, nsim, cap, r, item):
         if len(captured) != nsim:
             r.violation('evaluate_on_number_of_rollouts', dict(c, got=len(captured)), item)
             return
+        # its own roll-outs are roll-outs: sampled start, policy-supported actions, real steps, the step cap
+        for res in captured:
+            r.count('transitions')
+            if validate_mdp_rollout(res, mdp, spec, pi, cap, None, set(spec.abs_explicit), r, item, dict(c, inside='evaluate_on')) is None:
+                return
+        # deterministic policy on a deterministic MDP: the exact evaluation truncated at the step cap
+        det = all(len(spec.T[s_][a_]) == 1 for s_ in range(spec.n) for a_ in spec.acts[s_]) and \
+            all(len([1 for q_ in pi[s_].values() if q_ > 0]) == 1 for s_ in range(spec.n) if pi.get(s_))
+        if det:
+            def exact_truncated(s_):
+                tot, disc = 0.0, 1.0
+                for _t in range(cap):
+                    if s_ in spec.abs_explicit:
+                        break
+                    a_ = next(a for a, q_ in pi[s_].items() if q_ > 0)
+                    ns_ = next(iter(spec.T[s_][a_]))
+                    tot += disc * float(spec.R[s_][a_][ns_])
+                    disc *= g
+                    s_ = ns_
+                return tot
+            # the only randomness left is the sampled start of each roll-out
+            want_iv = sum(exact_truncated(mdp.s_of[res.steps[0]['state']]) for res in captured) / nsim
+            r.count('transitions')
+            r.count('deterministic_truncated_evaluations')
+            if abs(float(out.initial_value) - want_iv) > 1e-9:
+                r.violation('evaluate_on_deterministic_case_differs_from_truncated_exact_evaluation',
+                            dict(c, got=float(out.initial_value), want=want_iv), item)
         sv, cnt, av, ivs = {}, {}, {}, []
         for res in captured:
             rews = [float(x.get('reward', 0) or 0) for x in res.steps]
@@ -327,6 +354,8 @@ def check_evaluate_on(pol, pi, mdp, spec, nsim, cap, r, item):
     ex.explore(body, on_exec)
     r.count('states', ex.states)
     r.count('transitions', ex.transitions)
+    if ex.capped:
+        r.count('capped_instances')
     if ex.executions >= 2:
         r.nontriv((repr(item), 'eval', repr(pi), nsim, cap))
 
@@ -347,7 +376,11 @@ def check_pomdp(item, tier, r):
         pols.append(('qmdp', QMDP().plan_on(pomdp).policy))
         pols.append(('pbvi', pb.PointBasedValueIteration(min_belief_expansions=1, max_belief_expansions=3, horizon=3).plan_on(pomdp).policy))
     except Exception as e:
+        # the planners are only the source of value-based policies here, but without them this item loses two of its policies:
+        # not silent (judged by C08; here a note in the evidence and a counter that keeps the run from being called exhaustive)
         r.count('planner_exceptions')
+        r.count('capped_instances')
+        r.notes.setdefault('planner_exception', {'item': repr(item)[:400], 'error': repr(e)[:300]})
     na, no = len(pomdp.action_list), len(pomdp.observation_list)
     act = np.array([[0.25, 0.75][:na] if na == 2 else [1.0], [1.0, 0.0][:na] if na == 2 else [1.0]])
     act = act / act.sum(-1, keepdims=True)
